@@ -7,6 +7,7 @@ import (
 	"crypto/sha1"
 	"fmt"
 	"io"
+	"seehuhn.de/go/sfnt/glyf"
 	"sort"
 	"strings"
 	"sync"
@@ -300,6 +301,12 @@ func Font(k int) *sfnt.Font {
 		// the Macintosh record is keyed by Mac Roman bytes, the Windows record by code points
 		shared := cmap.Format4{'A': 1, 'B': 2, 'f': 3, 'i': 4, 0x80: 5, 0xC4: 2}.Encode(0)
 		f.CMapTable = cmap.Table{{PlatformID: 3, EncodingID: 1}: shared, {PlatformID: 1, EncodingID: 0}: shared}
+		// a glyph name of 101 bytes (the post table holds up to 255)
+		o := f.Outlines.(*glyf.Outlines)
+		if len(o.Names) != len(o.Glyphs) {
+			panic("c16ops: the glyf font has no glyph names")
+		}
+		o.Names[len(o.Names)-1] = "uni0066_uni0069." + strings.Repeat("long_", 17)
 	}
 	return f
 }
